@@ -89,15 +89,20 @@ Proof.
   apply tables_agree_sound. destruct a; vm_compute; reflexivity.
 Qed.
 
+Lemma append_assoc' (x y z : string) : (x ++ y) ++ z = x ++ (y ++ z).
+Proof. induction x as [|c x IH]; cbn [append]; auto. rewrite IH. reflexivity. Qed.
+Lemma cfg_default a sig : t_default (cfg_of a sig) = ("unexpected result code ", ": ", "").
+Proof. destruct a; reflexivity. Qed.
+
+(* the chain plus its fall-through words every code as the specification prescribes *)
 Lemma result_text_spec a sig name c desc :
-  result_text (cfg_of a sig) name c desc =
-  if has_key c (spec_wording a) then inl (spec_line a name c desc)
-  else inr (XValue ("Unknown result code " ++ dec c ++ " for " ++ name)).
+  result_text (cfg_of a sig) name c desc = spec_line a name c desc.
 Proof.
-  unfold result_text, has_key, spec_line.
+  unfold result_text, spec_line.
   rewrite <- (table_agrees a sig c).
-  destruct (lookup c (t_table (cfg_of a sig))) as [w|]; simpl; auto.
-  destruct w; simpl; reflexivity.
+  destruct (lookup c (t_table (cfg_of a sig))) as [w|]; simpl.
+  - destruct w; simpl; reflexivity.
+  - rewrite cfg_default. rewrite !append_assoc'. reflexivity.
 Qed.
 
 Lemma cfg_has_group a sig : t_has_group (cfg_of a sig) = has_group_form a.
@@ -170,16 +175,12 @@ Lemma results_loop_exit a sig ign rs : ign_ok a ign -> forall s,
 Proof.
   intro Hign. induction rs as [|r rs IH]; intro s; cbn [results_loop rs_success forallb].
   - split; auto. tauto.
-  - rewrite result_text_spec.
-    destruct (has_key (r_status r) (spec_wording a)) eqn:K.
-    + match goal with |- context [results_loop ?c ?i ?l ?s1] =>
-        specialize (IH s1); destruct (results_loop c i l s1) end.
-      * destruct IH as [O E]. cbn in O, E. split; auto.
-        rewrite E. rewrite (exit_from_fault_zero a ign _ _ Hign).
-        unfold rs_success. rewrite andb_true_iff. tauto.
-      * unfold rs_success in IH. rewrite IH. apply andb_false_r.
-    + destruct (in_success a (r_status r)) eqn:S; auto.
-      apply success_has_key in S. congruence.
+  - match goal with |- context [results_loop ?c ?i ?l ?s1] =>
+      specialize (IH s1); destruct (results_loop c i l s1) end.
+    + destruct IH as [O E]. cbn in O, E. split; auto.
+      rewrite E. rewrite (exit_from_fault_zero a ign _ _ Hign).
+      unfold rs_success. rewrite andb_true_iff. tauto.
+    + unfold rs_success in IH. rewrite IH. apply andb_false_r.
 Qed.
 
 Lemma target_step_exit a sig n x rest s :
@@ -196,15 +197,14 @@ Proof.
   - assert (HG : has_group_form a = true) by (apply andb_true_iff in G; tauto).
     specialize (Hg HG).
     unfold rpc. rewrite Ho. destruct x; cbn [resp_of tl]; auto.
-    + destruct (c =? F_BAD_NAME); auto. cbn. split; auto.
-      pose proof (cfg_gbad_nz a sig). split; intro X; [contradiction | destruct X; discriminate].
+    + pose proof (cfg_gbad_nz a sig). assert (G1 : LSBInit_GENERIC <> 0) by (vm_compute; discriminate).
+      destruct (c =? F_BAD_NAME); cbn; split; auto;
+        (split; intro X; [contradiction | destruct X; discriminate]).
     + match goal with |- context [results_loop ?c ?i ?l ?s1] =>
         pose proof (results_loop_exit a sig i l Hg s1) as R; destruct (results_loop c i l s1) end; auto.
   - unfold rpc. rewrite Ho. destruct x; cbn [resp_of tl]; auto.
     + cbn. split; auto. tauto.
-    + rewrite result_text_spec. destruct (has_key c (spec_wording a)) eqn:K.
-      * cbn. split; auto. apply (exit_from_fault_zero a _ _ _ Hs).
-      * destruct (in_success a c) eqn:S; auto. apply success_has_key in S. congruence.
+    + cbn. split; auto. apply (exit_from_fault_zero a _ _ _ Hs).
     + cbn. split; auto. tauto.
 Qed.
 
@@ -258,12 +258,11 @@ Lemma results_loop_mono c ign rs : forall s, mono s (state_of (results_loop c ig
 Proof.
   induction rs as [|r rs IH]; intro s; cbn [results_loop state_of].
   - apply mono_refl.
-  - destruct (result_text c _ _ _); cbn [state_of]; [|apply mono_refl].
-    eapply mono_trans; [|apply IH]. mono_now.
+  - eapply mono_trans; [|apply IH]. mono_now.
 Qed.
 
 Definition cfg_nz (c : tcfg) : Prop :=
-  t_gbad_exit c <> 0 /\ match t_gother_exit c with Some e => e <> 0 | None => True end.
+  t_gbad_exit c <> 0 /\ True.
 Lemma cfg_of_nz a sig : cfg_nz (cfg_of a sig).
 Proof. destruct a; vm_compute; split; auto; discriminate. Qed.
 
@@ -274,10 +273,8 @@ Proof.
   - unfold rpc. destruct (orc s) as [|[v|k fs|k cls t|k u m] o]; cbn [state_of]; try solve [mono_now].
     + destruct v; cbn [state_of]; try solve [mono_now].
       eapply mono_trans; [|apply results_loop_mono]. mono_now.
-    + destruct (k =? F_BAD_NAME); cbn [state_of]; try solve [mono_now].
-      destruct (t_gother_exit c); mono_now.
-  - unfold rpc. destruct (orc s) as [|[v|k fs|k cls t|k u m] o]; cbn [state_of]; try solve [mono_now].
-    destruct (result_text c _ _ _); cbn [state_of]; mono_now.
+    + destruct (k =? F_BAD_NAME); cbn [state_of]; mono_now.
+  - unfold rpc. destruct (orc s) as [|[v|k fs|k cls t|k u m] o]; cbn [state_of]; mono_now.
 Qed.
 
 Lemma names_loop_mono c names : cfg_nz c -> forall s, mono s (state_of (names_loop c names s)).
@@ -347,10 +344,7 @@ Proof.
   intros M E. unfold guarded. rewrite E.
   assert (G : LSBInit_GENERIC <> 0) by apply lsb_nz.
   destruct e; try (cbn; exact G).
-  destruct (errcode =? 401); [|cbn; exact G].
-  match goal with |- ex (net (f ?s2)) <> 0 =>
-    pose proof (M s2) as [M1 _]; pose proof (net_mono (f s2)) as [M2 _] end.
-  apply M2, M1. cbn. exact G.
+  destruct (errcode =? 401); cbn; exact G.
 Qed.
 
 Lemma guarded_ok f s u s1 : f s = Ok u s1 -> guarded f s = s1.
@@ -423,48 +417,45 @@ Definition call_for (a : action) (sig n : string) : call :=
   then (t_group (cfg_of a sig), AS (fst (split_namespec n)) :: t_extra (cfg_of a sig))
   else (t_single (cfg_of a sig), AS n :: t_extra (cfg_of a sig)).
 
-Definition rs_covered (a : action) (rs : list presult) : bool :=
-  forallb (fun r => has_key (r_status r) (spec_wording a)) rs.
 Definition rs_lines (a : action) (rs : list presult) : list string :=
   map (fun r => spec_line a (make_namespec (r_group r) (r_name r)) (r_status r) (r_desc r)) rs.
 
-Lemma results_loop_lines a sig ign rs : rs_covered a rs = true -> forall s,
+Lemma results_loop_lines a sig ign rs : forall s,
   exists s', results_loop (cfg_of a sig) ign rs s = Ok tt s' /\
              out s' = (rev (map LText (rs_lines a rs)) ++ out s)%list /\
              orc s' = orc s /\ calls s' = calls s.
 Proof.
-  induction rs as [|r rs IH]; intros C s; cbn [results_loop rs_lines map rev].
+  induction rs as [|r rs IH]; intros s; cbn [results_loop rs_lines map rev].
   - exists s. auto.
-  - cbn [rs_covered forallb] in C. apply andb_true_iff in C as [K C].
-    rewrite result_text_spec, K.
-    match goal with |- context [results_loop ?c ?i ?l ?s1] => destruct (IH C s1) as [s' [E [O [R Cs]]]] end.
+  - rewrite result_text_spec.
+    match goal with |- context [results_loop ?c ?i ?l ?s1] => destruct (IH s1) as [s' [E [O [R Cs]]]] end.
     exists s'. split; auto. split; [|split; auto].
     rewrite O. cbn. rewrite <- app_assoc. reflexivity.
 Qed.
 
 Lemma target_step_lines a sig n x rest s :
-  covered a n x = true -> orc s = resp_of x :: rest ->
+  answered a n x = true -> orc s = resp_of x :: rest ->
   exists s', target_step (cfg_of a sig) n s = Ok tt s' /\
              out s' = (rev (map LText (expected_lines a n x)) ++ out s)%list /\
              orc s' = rest /\ calls s' = call_for a sig n :: calls s.
 Proof.
-  intros C Ho. unfold target_step, covered, expected_lines, call_for, target_name, is_group_target in *.
+  intros C Ho. unfold target_step, answered, expected_lines, call_for, target_name, is_group_target in *.
   destruct (split_namespec n) as [g po]. rewrite cfg_has_group. cbn [snd fst] in *.
   destruct (has_group_form a && is_none po) eqn:G.
   - unfold rpc. rewrite Ho. destruct x; cbn [resp_of tl]; try discriminate.
-    + rewrite C. eexists. split; [reflexivity|]. cbn. auto.
+    + destruct (c =? F_BAD_NAME); (eexists; split; [reflexivity|]; cbn; auto).
     + match goal with |- context [results_loop ?c ?i ?l ?s1] =>
-        destruct (results_loop_lines a sig i l C s1) as [s' [E [O [R Cs]]]] end.
+        destruct (results_loop_lines a sig i l s1) as [s' [E [O [R Cs]]]] end.
       exists s'. split; auto.
   - unfold rpc. rewrite Ho. rewrite cfg_single_ok.
     destruct x; cbn [resp_of tl]; try discriminate.
     + eexists. split; [reflexivity|]. cbn. auto.
-    + rewrite result_text_spec, C. eexists. split; [reflexivity|]. cbn. auto.
+    + rewrite result_text_spec. eexists. split; [reflexivity|]. cbn. auto.
     + eexists. split; [reflexivity|]. cbn. auto.
 Qed.
 
 Lemma names_loop_lines a sig names : forall answers rest s,
-  all_covered a names answers = true ->
+  all_answered a names answers = true ->
   orc s = (map resp_of answers ++ rest)%list ->
   exists s', names_loop (cfg_of a sig) names s = Ok tt s' /\
              out s' = (rev (map LText (all_expected a names answers)) ++ out s)%list /\
@@ -473,7 +464,7 @@ Proof.
   induction names as [|n ns IH]; intros [|x xs] rest s C Ho; try discriminate;
     cbn [names_loop all_expected map rev].
   - exists s. cbn in Ho. auto.
-  - cbn [all_covered] in C. apply andb_true_iff in C as [C1 C2]. cbn in Ho.
+  - cbn [all_answered] in C. apply andb_true_iff in C as [C1 C2]. cbn in Ho.
     destruct (target_step_lines a sig n x _ s C1 Ho) as [s1 [E [O [R Cs]]]]. rewrite E.
     destruct (IH xs rest s1 C2 R) as [s' [E' [O' [R' Cs']]]].
     exists s'. split; auto. split; [|split; auto].
@@ -481,17 +472,17 @@ Proof.
     + rewrite Cs', Cs, <- app_assoc. reflexivity.
 Qed.
 
-Lemma expected_count a n x : covered a n x = true ->
+Lemma expected_count a n x : answered a n x = true ->
   List.length (expected_lines a n x) = target_count a n x.
 Proof.
-  unfold covered, expected_lines, target_count. destruct (is_group_target a n); destruct x;
+  unfold answered, expected_lines, target_count. destruct (is_group_target a n); destruct x;
     intro; try discriminate; cbn; auto. apply map_length.
 Qed.
-Lemma all_expected_count a names : forall answers, all_covered a names answers = true ->
+Lemma all_expected_count a names : forall answers, all_answered a names answers = true ->
   List.length (all_expected a names answers) = total_targets a names answers.
 Proof.
   induction names as [|n ns IH]; intros [|x xs] C; try discriminate; auto.
-  cbn [all_covered] in C. apply andb_true_iff in C as [C1 C2].
+  cbn [all_answered] in C. apply andb_true_iff in C as [C1 C2].
   cbn [all_expected total_targets]. rewrite app_length, (expected_count _ _ _ C1), (IH _ C2). reflexivity.
 Qed.
 
@@ -500,7 +491,7 @@ Qed.
    the method and argument chosen by split_namespec. *)
 Theorem one_line_per_target a sig url names answers :
   mem_str "all" names = false ->
-  all_covered a names answers = true ->
+  all_answered a names answers = true ->
   let s := run_targets a sig url names answers in
   rev (out s) = map LText (all_expected a names answers) /\
   List.length (all_expected a names answers) = total_targets a names answers /\
@@ -518,49 +509,66 @@ Proof.
   - rewrite Cs. cbn. rewrite rev_app_distr, rev_involutive. reflexivity.
 Qed.
 
-(* Without the guard the statement is false of the code: known finding C20-unknown-code. *)
-Theorem unknown_code_aborts_refuted :
-  exists a names answers,
-    mem_str "all" names = false /\ List.length names = List.length answers /\
-    let s := run_targets a "" "u" names answers in
-    (List.length (out s) < total_targets a names answers)%nat /\
-    out s = [LErr "ValueError" "Unknown result code 30 for a"] /\ ex s = 1 /\
-    rev (calls s) = [("getVersion", []); ("startProcess", [AS "a"])].
+(* What is left outside the hypothesis `all_answered`: a transport error (socket.error,
+   ProtocolError) ends the command - the exception net prints an error line, or the
+   authentication notice for a 401 - and the targets after it are not processed. *)
+Example transport_error_ends_command :
+  let s := run_targets Start "" "u" ["a"; "b"; "c"]
+             [AnsOk; AnsSock 104 "ConnectionResetError" "reset"; AnsOk] in
+  rev (out s) = [LText "a: started"; LErr "ConnectionResetError" "[Errno 104] reset"] /\ ex s = 1 /\
+  rev (calls s) = [("getVersion", []); ("startProcess", [AS "a"]); ("startProcess", [AS "b"])].
+Proof. vm_compute. auto. Qed.
+
+Lemma prefix_app p r : prefix p (p ++ r) = true.
 Proof.
-  exists Start, ["a"; "b"], [AnsFault F_FAILED "FAILED"; AnsOk].
-  vm_compute. repeat split; auto.
+  induction p as [|c p IH]; cbn [append].
+  - destruct r; reflexivity.
+  - cbn [prefix]. destruct (ascii_dec c c); [auto | contradiction].
 Qed.
 
-(* which codes the wording tables cover, and what happens to the others *)
+(* every line other than the server's own text starts with the target's namespec *)
+Lemma spec_line_names a name c desc :
+  lookup c (spec_wording a) <> Some WFaultString ->
+  prefix (name ++ ": ") (spec_line a name c desc) = true.
+Proof.
+  intro H. unfold spec_line.
+  destruct (lookup c (spec_wording a)) as [[w|w| |]|].
+  - change (prefix (name ++ ": ") (name ++ (": " ++ ("ERROR (" ++ w ++ ")"))) = true).
+    rewrite <- append_assoc'. apply prefix_app.
+  - rewrite <- append_assoc'. apply prefix_app.
+  - change (prefix (name ++ ": ")
+              (name ++ (": " ++ ("ERROR (unexpected result code " ++ dec c ++ ": " ++ desc ++ ")"))) = true).
+    rewrite <- append_assoc'. apply prefix_app.
+  - exfalso; apply H; reflexivity.
+  - change (prefix (name ++ ": ")
+              (name ++ (": " ++ ("ERROR (unexpected result code " ++ dec c ++ ": " ++ desc ++ ")"))) = true).
+    rewrite <- append_assoc'. apply prefix_app.
+Qed.
+
+(* every fault code, covered by the chain or not, yields exactly one line for the
+   target - naming it unless it is the server's text - and the status is 0 exactly
+   for the success class *)
 Theorem wording_total a sig url n c fs :
   is_group_target a n = false -> n <> "all" ->
   let s := run_targets a sig url [n] [AnsFault c fs] in
-  if has_key c (spec_wording a)
-  then out s = [LText (spec_line a (target_name n) c fs)] /\
-       (ex s = 0 <-> in_success a c = true)
-  else out s = [LErr "ValueError" ("Unknown result code " ++ dec c ++ " for " ++ target_name n)] /\
-       ex s = LSBInit_GENERIC.
+  out s = [LText (spec_line a (target_name n) c fs)] /\
+  (ex s = 0 <-> in_success a c = true) /\
+  (lookup c (spec_wording a) <> Some WFaultString ->
+   prefix (target_name n ++ ": ") (spec_line a (target_name n) c fs) = true).
 Proof.
   intros G NA. cbv zeta.
   assert (NA' : mem_str "all" [n] = false).
   { cbn. rewrite orb_false_r. destruct ("all" =s n) eqn:E; auto. apply String.eqb_eq in E. congruence. }
-  destruct (has_key c (spec_wording a)) eqn:K.
-  - split.
-    + assert (C : all_covered a [n] [AnsFault c fs] = true).
-      { cbn. unfold covered. rewrite G, K. reflexivity. }
-      destruct (one_line_per_target a sig url [n] [AnsFault c fs] NA' C) as [L _].
-      cbn in L. unfold expected_lines in L. rewrite G in L. cbn in L.
-      apply (f_equal (@rev line)) in L. rewrite rev_involutive in L. exact L.
-    + rewrite (exit_zero_iff a sig url [n] [AnsFault c fs] NA' eq_refl).
-      cbn. unfold ans_success. rewrite G, andb_true_r. tauto.
-  - unfold run_targets.
-    pose proof (targets_cmd_names a sig url [n] [RFault c fs] NA') as TE.
-    cbn [map resp_of]. unfold guarded. rewrite TE.
-    cbn [names_loop]. unfold target_step, target_name. unfold is_group_target in G.
-    destruct (split_namespec n) as [g po]. rewrite cfg_has_group. cbn [snd fst] in *. rewrite G.
-    unfold rpc. cbn [orc after_up tl]. rewrite result_text_spec, K. cbn. auto.
+  split; [|split].
+  - assert (C : all_answered a [n] [AnsFault c fs] = true).
+    { cbn. unfold answered. rewrite G. reflexivity. }
+    destruct (one_line_per_target a sig url [n] [AnsFault c fs] NA' C) as [L _].
+    cbn in L. unfold expected_lines in L. rewrite G in L. cbn in L.
+    apply (f_equal (@rev line)) in L. rewrite rev_involutive in L. exact L.
+  - rewrite (exit_zero_iff a sig url [n] [AnsFault c fs] NA' eq_refl).
+    cbn. unfold ans_success. rewrite G, andb_true_r. tauto.
+  - apply spec_line_names.
 Qed.
-
 
 (* the value of the exit status after one single-process target *)
 Lemma dead_agree c : mem_z c DEAD_PROGRAM_FAULTS = mem_z c spec_dead_faults.
@@ -570,10 +578,10 @@ Proof.
 Qed.
 
 Theorem exit_value_single a sig url n c fs :
-  is_group_target a n = false -> n <> "all" -> has_key c (spec_wording a) = true ->
+  is_group_target a n = false -> n <> "all" ->
   ex (run_targets a sig url [n] [AnsFault c fs]) = spec_fault_exit a c.
 Proof.
-  intros G NA K.
+  intros G NA.
   assert (NA' : mem_str "all" [n] = false).
   { cbn. rewrite orb_false_r. destruct ("all" =s n) eqn:E; auto. apply String.eqb_eq in E. congruence. }
   unfold run_targets.
@@ -581,7 +589,7 @@ Proof.
   cbn [map resp_of]. unfold guarded. rewrite TE.
   cbn [names_loop]. unfold target_step. unfold is_group_target in G.
   destruct (split_namespec n) as [g po]. rewrite cfg_has_group. cbn [snd fst] in *. rewrite G.
-  unfold rpc. cbn [orc after_up tl]. rewrite result_text_spec, K.
+  unfold rpc. cbn [orc after_up tl].
   cbn [ex set_exit_fault setex say outp after_up]. unfold exit_from_fault, spec_fault_exit.
   destruct (ign_sites a sig) as [_ [Hs _]]. rewrite Hs, dead_agree.
   destruct (in_success a c); [reflexivity|].
@@ -599,18 +607,20 @@ Lemma existsb_suffix {A} (p : A -> bool) l l' : suffix l l' -> existsb p l = tru
 Proof. intros [l0 E] H. subst. rewrite existsb_app, H. apply orb_true_r. Qed.
 
 Lemma spec_line_err a name c desc fws :
-  has_key c (spec_wording a) = true -> in_success a c = false -> In desc fws ->
+  in_success a c = false -> In desc fws ->
   is_error_line fws (LText (spec_line a name c desc)) = true.
 Proof.
-  unfold has_key, spec_line. intros K S I.
-  destruct (lookup c (spec_wording a)) as [w|] eqn:L; try discriminate.
-  pose proof (wording_class a) as W. unfold wording_class_ok in W. rewrite forallb_forall in W.
-  specialize (W _ (lookup_In _ _ _ L)). cbn [fst snd] in W.
-  destruct w; cbn [is_error_line].
-  - rewrite (contains_app_r "ERROR" name (": ERROR (" ++ what ++ ")")); auto.
-  - congruence.
-  - discriminate.
-  - rewrite (mem_str_In _ _ I). repeat rewrite orb_true_r. reflexivity.
+  unfold spec_line. intros S I.
+  destruct (lookup c (spec_wording a)) as [w|] eqn:L.
+  - pose proof (wording_class a) as W. unfold wording_class_ok in W. rewrite forallb_forall in W.
+    specialize (W _ (lookup_In _ _ _ L)). cbn [fst snd] in W.
+    destruct w; cbn [is_error_line].
+    + rewrite (contains_app_r "ERROR" name (": ERROR (" ++ what ++ ")")); auto.
+    + congruence.
+    + discriminate.
+    + rewrite (mem_str_In _ _ I). repeat rewrite orb_true_r. reflexivity.
+  - cbn [is_error_line].
+    rewrite (contains_app_r "ERROR" name (": ERROR (unexpected result code " ++ dec c ++ ": " ++ desc ++ ")")); auto.
 Qed.
 
 Lemma results_loop_err a sig ign rs fws : forall s,
@@ -621,7 +631,7 @@ Lemma results_loop_err a sig ign rs fws : forall s,
   end.
 Proof.
   induction rs as [|r rs IH]; intros s F I; cbn [results_loop]; try discriminate.
-  rewrite result_text_spec. destruct (has_key (r_status r) (spec_wording a)) eqn:K; auto.
+  rewrite result_text_spec.
   cbn [rs_success forallb] in F.
   destruct (in_success a (r_status r)) eqn:S.
   - apply IH; auto. intros; apply I; right; auto.
@@ -646,11 +656,12 @@ Proof.
   destruct (split_namespec n) as [g po]. rewrite cfg_has_group. cbn [snd fst] in *.
   destruct (has_group_form a && is_none po) eqn:G.
   - unfold rpc. rewrite Ho. destruct x; cbn [resp_of tl]; auto.
-    + destruct (c =? F_BAD_NAME); auto. cbn [out setex say outp existsb is_error_line].
-      rewrite (contains_app_r "ERROR" g ": ERROR (no such group)"); auto.
+    + destruct (c =? F_BAD_NAME); cbn [out setex say outp existsb is_error_line].
+      * rewrite (contains_app_r "ERROR" g ": ERROR (no such group)"); auto.
+      * rewrite (contains_app_r "ERROR" g (": ERROR (" ++ fs ++ ")")); auto.
     + apply results_loop_err; auto. intros r Hr. apply I. cbn. apply in_map. auto.
   - unfold rpc. rewrite Ho. destruct x; cbn [resp_of tl]; auto; try discriminate.
-    rewrite result_text_spec. destruct (has_key c (spec_wording a)) eqn:K; auto.
+    rewrite result_text_spec.
     cbn [out set_exit_fault setex say outp existsb].
     rewrite spec_line_err; auto. apply I. cbn. auto.
 Qed.
@@ -688,10 +699,7 @@ Lemma guarded_exn_line f s e s1 fws :
 Proof.
   intros M E. unfold guarded. rewrite E.
   destruct e; try (cbn; reflexivity).
-  destruct (errcode =? 401); [|cbn; reflexivity].
-  match goal with |- context [net (f ?s2)] =>
-    pose proof (M s2) as [_ M1]; pose proof (net_mono (f s2)) as [_ M2];
-    apply (existsb_suffix _ (out s2)); [eapply suffix_trans; [exact M1 | exact M2] | cbn; reflexivity] end.
+  destruct (errcode =? 401); cbn; reflexivity.
 Qed.
 
 (* A fault outside the success class, or a transport error, for any target: the
@@ -757,7 +765,7 @@ Qed.
 Lemma results_loop_calls c ign rs : forall s, calls (state_of (results_loop c ign rs s)) = calls s.
 Proof.
   induction rs as [|r rs IH]; intro s; cbn [results_loop state_of]; auto.
-  destruct (result_text _ _ _ _); cbn [state_of]; auto. rewrite IH. reflexivity.
+  rewrite IH. reflexivity.
 Qed.
 
 Theorem namespec_selection a sig :
@@ -970,9 +978,7 @@ Proof.
   - destruct (c =? F_SHUTDOWN_STATE); cbn; split; auto; discriminate.
   - cbn. tauto.
   - destruct (n =? ECONNREFUSED); [|destruct (n =? ENOENT)]; cbn; split; discriminate.
-  - destruct (c =? 401); cbn.
-    + split; [|discriminate]. destruct (c =? F_SHUTDOWN_STATE); cbn; discriminate.
-    + split; discriminate.
+  - destruct (c =? 401); cbn; split; discriminate.
 Qed.
 
 (* ------------------------------------------------------ non-vacuity examples *)
@@ -988,11 +994,17 @@ Example one_line_example :
   let answers := [AnsFault F_SPAWN_ERROR "x";
                   AnsResults [Build_presult "p" "g" F_SUCCESS "OK"; Build_presult "q" "g" F_ALREADY_STARTED "d"];
                   AnsOk] in
-  all_covered Start names answers = true /\
+  all_answered Start names answers = true /\
   rev (out (run_targets Start "" "u" names answers)) =
     [LText "a: ERROR (spawn error)"; LText "g:p: started"; LText "g:q: ERROR (already started)";
      LText "h:q: started"] /\
   total_targets Start names answers = 4%nat.
+Proof. vm_compute. auto. Qed.
+
+Example group_fault_example :
+  let s := run_targets Start "" "u" ["g:*"; "b"] [AnsFault F_SHUTDOWN_STATE "SHUTDOWN_STATE"; AnsOk] in
+  rev (out s) = [LText "g: ERROR (SHUTDOWN_STATE)"; LText "b: started"] /\ ex s = 1 /\
+  all_answered Start ["g:*"; "b"] [AnsFault F_SHUTDOWN_STATE "SHUTDOWN_STATE"; AnsOk] = true.
 Proof. vm_compute. auto. Qed.
 
 Example never_silent_example :
@@ -1002,8 +1014,8 @@ Example never_silent_example :
 Proof. vm_compute. auto. Qed.
 
 Example auth_example :
-  let s := guarded (targets_cmd Start "" "u" ["a"])
-                   (init [RProto 401 "h" "Unauthorized"; RProto 401 "h" "Unauthorized"]) in
-  ex s = 1 /\ rev (out s) = [LText "Server requires authentication";
-                             LErr "xmlrpc.client.ProtocolError" "<ProtocolError for h: 401 Unauthorized>"].
+  let s := guarded (targets_cmd Signal "HUP" "u" ["a"; "b"])
+                   (init [up_ok; RVal VUnit; RProto 401 "h" "Unauthorized"; RVal VUnit]) in
+  ex s = 1 /\ rev (out s) = [LText "a: signalled"; LText "Server requires authentication"] /\
+  rev (calls s) = [("getVersion", []); ("signalProcess", [AS "a"; AS "HUP"]); ("signalProcess", [AS "b"; AS "HUP"])].
 Proof. vm_compute. auto. Qed.
